@@ -16,7 +16,7 @@ answers: `ok ct=<current> t=<time>/<time>… wf=<0|1> R=<tensor>:<lr index>:<sta
          `ok ct=<current> P=<entry>:<time>:<t>/<t>…,… wf=<0|1> R=…`      or `err:<kind>`
 
 `lrspec R=<eq>:<lr>:<start>:<end>,… in=<eq>/… out=<eq>/… C=<S|D|M|C>:<op>:<time>:<reads>:<writes>:<wbuf|->:<pre>;…`
-answer: `uncovered=<n> <tensor>@<lo>..<hi> … | io=<n> … | clobbers=<n> <reader op>:<tensor>:<writer op> …`
+answer: `uncovered=<n> <tensor>@<lo>..<hi> … | io=<n> … | clobbers=<n> <reader op>:<tensor>:<writer op> … | regressions=<n> <op>@<time><<previous time> …`
 -/
 namespace VelaVerif.Handlers.LiveRange
 open VelaVerif VelaVerif.Handlers VelaVerif.LiveRange
@@ -141,7 +141,8 @@ def handle : List String → Option String
     let need := fun (d : LiveRangeSpec.Need) => s!"{d.tensor}@{d.lo}..{d.hi}"
     some (s!"uncovered={v.uncovered.length} " ++ " ".intercalate ((v.uncovered.take 6).map need) ++
       s!" | io={v.io.length} " ++ " ".intercalate ((v.io.take 6).map need) ++
-      s!" | clobbers={v.clobbers.length} " ++ " ".intercalate ((v.clobbers.take 6).map fun (c, t, w) => s!"{c.op}:{t}:{w.op}"))
+      s!" | clobbers={v.clobbers.length} " ++ " ".intercalate ((v.clobbers.take 6).map fun (c, t, w) => s!"{c.op}:{t}:{w.op}") ++
+      s!" | regressions={v.regressions.length} " ++ " ".intercalate ((v.regressions.take 6).map fun (c, p) => s!"{c.op}@{c.time}<{p}"))
   | _ => none
 
 end VelaVerif.Handlers.LiveRange
